@@ -96,19 +96,7 @@ func checkC02(w *Worker) {
 		return d
 	}
 	nRend := len(regRenderers) + 1
-	w.Explore("register", ExploreOpts{ShardDepth: 7}, func(x *Exec) {
-		bi := x.Choose(len(c02Books), "input:book")
-		ri := x.Choose(nRend, "input:renderer")
-		book := c02Books[bi]
-		var lg absLog
-		first := genDay(x, dates[0], maxFirst)
-		lg = append(lg, first)
-		if len(first.Entries) <= 1 || w.Tier == "thorough" {
-			nd := x.Choose(3, "input:moredays") // 0: one day; 1: a second, earlier date; 2: the same date again
-			if nd > 0 {
-				lg = append(lg, genDay(x, dates[nd], maxSecond))
-			}
-		}
+	verify := func(x *Exec, bi, ri int, book absBook, lg absLog) {
 		files := map[string]string{"food.yaml": renderBook(book), "log.yaml": renderLog(lg)}
 		want := refRegister(book, lg)
 		nontriv := false
@@ -174,5 +162,41 @@ func checkC02(w *Worker) {
 		if x.w.Executions%977 == 0 {
 			x.w.conform(c, r)
 		}
+	}
+	w.Explore("register", ExploreOpts{ShardDepth: 7}, func(x *Exec) {
+		bi := x.Choose(len(c02Books), "input:book")
+		ri := x.Choose(nRend, "input:renderer")
+		book := c02Books[bi]
+		var lg absLog
+		first := genDay(x, dates[0], maxFirst)
+		lg = append(lg, first)
+		if len(first.Entries) <= 1 || w.Tier == "thorough" {
+			nd := x.Choose(3, "input:moredays") // 0: one day; 1: a second, earlier date; 2: the same date again
+			if nd > 0 {
+				lg = append(lg, genDay(x, dates[nd], maxSecond))
+			}
+		}
+		verify(x, bi, ri, book, lg)
+	})
+	// merge shapes: longer days over a small food alphabet; the i-th entry has quantity 2^i, so the
+	// merged quantity of a food identifies exactly which entries were folded into it
+	maxLen := 6
+	if w.Tier == "thorough" {
+		maxLen = 8
+	}
+	mergeFoods := []string{"r1", "u", "e"}
+	w.Explore("merge-shapes", ExploreOpts{ShardDepth: 5}, func(x *Exec) {
+		bi := x.Choose(len(c02Books), "input:book")
+		ri := x.Choose(nRend, "input:renderer")
+		n := 2 + x.Choose(maxLen-1, "input:entries")
+		d := absDay{Date: dates[0]}
+		for i := 0; i < n; i++ {
+			q := float64(int(1) << uint(i))
+			if i%3 == 2 {
+				q = -q
+			}
+			d.Entries = append(d.Entries, absIng{mergeFoods[x.Choose(len(mergeFoods), "input:food")], q})
+		}
+		verify(x, bi, ri, c02Books[bi], absLog{d})
 	})
 }
